@@ -1129,6 +1129,10 @@ class Process(StateMachine, persistence.Savable, metaclass=ProcessStateMachineMe
             # Already pausing
             return self._pausing
 
+        if self._killing is not None:
+            # Being killed: a pause must not replace the pending kill
+            return False
+
         if self._stepping:
             # Ask the step function to pause by setting this flag and giving the
             # caller back a future
@@ -1257,6 +1261,8 @@ class Process(StateMachine, persistence.Savable, metaclass=ProcessStateMachineMe
             interrupt_exception = process_states.KillInterruption(msg_text)
             self._set_interrupt_action_from_exception(interrupt_exception)
             self._killing = self._interrupt_action
+            # A pending pause has just been cancelled in favour of the kill
+            self._pausing = None
             self._state.interrupt(interrupt_exception)
             return cast(futures.CancellableAction, self._interrupt_action)
 
